@@ -580,14 +580,29 @@ func runReqCase(c reqCase) (obs reqObs) {
 		rmu.Unlock()
 		return s + fmt.Sprint(len(net.Log()))
 	}
+	// how long nothing must change before the run counts as over depends on how late goroutines get scheduled on this
+	// machine right now (a queued cancel is sent by the message queue's own goroutine): measured, not assumed
+	window := 40 * time.Millisecond
+	var worst time.Duration
+	for i := 0; i < 3; i++ {
+		t := time.Now()
+		time.Sleep(2 * time.Millisecond)
+		if over := time.Since(t) - 2*time.Millisecond; over > worst {
+			worst = over
+		}
+	}
+	window += 40 * worst
+	if window > 500*time.Millisecond {
+		window = 500 * time.Millisecond
+	}
 	last, stableSince := "", time.Now()
-	for start := time.Now(); time.Since(start) < 3*time.Second && !wedged; {
+	for start := time.Now(); time.Since(start) < 4*time.Second && !wedged; {
 		time.Sleep(3 * time.Millisecond)
 		barrier()
 		s := snapshot()
 		if s != last {
 			last, stableSince = s, time.Now()
-		} else if time.Since(stableSince) > 40*time.Millisecond {
+		} else if time.Since(stableSince) > window {
 			break
 		}
 	}
